@@ -68,6 +68,72 @@ func pathTo(from Loc, target, barrier func(ssa.Instruction) bool, edgeOK edgeFn)
 	return nil, false
 }
 
+// pathToCorr is pathTo with one correlation: the state is (block, edge it was
+// entered by), and a branch whose condition is a φ of boolean constants in the
+// branching block itself (or its negation) – the `found := false … found =
+// true; break … if !found` idiom – takes only the successor that the constant
+// on the entering edge selects.
+func pathToCorr(from Loc, target, barrier func(ssa.Instruction) bool, edgeOK edgeFn) (ssa.Instruction, bool) {
+	type st struct{ b, pred *ssa.BasicBlock }
+	seen := map[st]bool{}
+	type item struct {
+		b, pred *ssa.BasicBlock
+		i       int
+	}
+	work := []item{{from.B, nil, from.I + 1}}
+	for len(work) > 0 {
+		it := work[len(work)-1]
+		work = work[:len(work)-1]
+		stopped := false
+		for i := it.i; i < len(it.b.Instrs); i++ {
+			ins := it.b.Instrs[i]
+			if target != nil && target(ins) {
+				return ins, true
+			}
+			if barrier != nil && barrier(ins) {
+				stopped = true
+				break
+			}
+		}
+		if stopped {
+			continue
+		}
+		succs := it.b.Succs
+		if iff := ifOf(it.b); iff != nil && len(succs) == 2 && succs[0] != succs[1] && it.pred != nil {
+			cond, neg := iff.Cond, false
+			if u, ok := cond.(*ssa.UnOp); ok && u.Op == token.NOT {
+				cond, neg = u.X, true
+			}
+			if p, ok := cond.(*ssa.Phi); ok && p.Block() == it.b {
+				for i, pb := range it.b.Preds {
+					if pb != it.pred {
+						continue
+					}
+					if k, isK := p.Edges[i].(*ssa.Const); isK && k.Value != nil && (k.Value.String() == "true" || k.Value.String() == "false") {
+						truth := (k.Value.String() == "true") != neg
+						if truth {
+							succs = succs[:1]
+						} else {
+							succs = succs[1:]
+						}
+					}
+					break
+				}
+			}
+		}
+		for _, s := range succs {
+			if edgeOK != nil && !edgeOK(it.b, s) {
+				continue
+			}
+			if !seen[st{s, it.b}] {
+				seen[st{s, it.b}] = true
+				work = append(work, item{s, it.b, 0})
+			}
+		}
+	}
+	return nil, false
+}
+
 // entryLoc is the location "before the first instruction" of fn.
 func entryLoc(fn *ssa.Function) Loc { return Loc{fn.Blocks[0], -1} }
 
